@@ -19,6 +19,8 @@ for l in open('$out',errors='replace'):
 sys.exit(0 if all(w.strip() in p for w in open('/verif/scripts/stable_pass.txt') if w.strip()) else 1)"; then
   go test -mod=mod -json -vet=off -count=1 -timeout 25m ./... >> "$out" 2>/dev/null
 fi
+# the raw `go test -json` stream first (for any parser of the baseline format), the verdict lines after it
+[ -n "${BASELINE_QUIET:-}" ] || cat "$out"
 python3 - "$out" /verif/scripts/stable_pass.txt <<'PY'
 import json,sys
 passed=set()
